@@ -1,7 +1,11 @@
 #!/bin/bash
-# wave_item.sh <worktree> <check id>...: confirm a sub-agent's seeded change, then run the given quick checks against it
+# wave_item.sh <worktree> <check id>...: confirm a sub-agent's seeded change (retrying a test run that was killed from outside),
+# then run the given quick checks against it
 wt=$1; shift
 b=$(basename $wt)
-/verif/tools/confirm_seed.sh $wt > /tmp/confirm_$b.txt 2>&1
+for attempt in 1 2 3; do
+  /verif/tools/confirm_seed.sh $wt > /tmp/confirm_$b.txt 2>&1
+  grep -q "^tests: .*passed\|^tests: .*failed" /tmp/confirm_$b.txt && break
+done
 cat /tmp/confirm_$b.txt
 /verif/tools/try_seed.sh $wt/mutation/patch.diff "$@"
